@@ -54,6 +54,7 @@ type kind struct {
 	name   string
 	base   func(g *gen, chain string) claim
 	clone  func(c claim) claim
+	zero   func() claim
 	line   func(c claim) string // op line without the trailing checksum bit
 	addrs  func(c claim) (chain string, ext []string, bech []string)
 	effect func(c claim) string // canonical text of the effect-relevant fields
@@ -394,7 +395,7 @@ func hashOf(c claim) (res string) {
 // the six claim types
 
 func kinds() []*kind {
-	stf := &kind{tag: "stf", name: "MsgSendToFxClaim",
+	stf := &kind{tag: "stf", name: "MsgSendToFxClaim", zero: func() claim { return &ct.MsgSendToFxClaim{} },
 		base: func(g *gen, ch string) claim {
 			return &ct.MsgSendToFxClaim{EventNonce: g.u64(), BlockHeight: g.u64(), TokenContract: g.ext(ch), Amount: g.amount(),
 				Sender: g.ext(ch), Receiver: g.bech(), TargetIbc: g.hexText(), BridgerAddress: g.bech(), ChainName: ch}
@@ -433,7 +434,7 @@ func kinds() []*kind {
 			{"BridgerAddress", false, func(g *gen, c claim, ch string) { m := c.(*ct.MsgSendToFxClaim); m.BridgerAddress = g.bech() }},
 		}}
 
-	bc := &kind{tag: "bc", name: "MsgBridgeCallClaim",
+	bc := &kind{tag: "bc", name: "MsgBridgeCallClaim", zero: func() claim { return &ct.MsgBridgeCallClaim{} },
 		base: func(g *gen, ch string) claim {
 			n := g.rng.Intn(4)
 			if g.rng.Intn(10) == 0 {
@@ -522,7 +523,7 @@ func kinds() []*kind {
 			{"BridgerAddress", false, func(g *gen, c claim, ch string) { m := c.(*ct.MsgBridgeCallClaim); m.BridgerAddress = g.bech() }},
 		}}
 
-	bcr := &kind{tag: "bcr", name: "MsgBridgeCallResultClaim",
+	bcr := &kind{tag: "bcr", name: "MsgBridgeCallResultClaim", zero: func() claim { return &ct.MsgBridgeCallResultClaim{} },
 		base: func(g *gen, ch string) claim {
 			return &ct.MsgBridgeCallResultClaim{ChainName: ch, BridgerAddress: g.bech(), EventNonce: g.u64(), BlockHeight: g.u64(), Nonce: g.u64(),
 				TxOrigin: g.ext(ch), Success: g.rng.Intn(2) == 0, Cause: g.hexData()}
@@ -560,7 +561,7 @@ func kinds() []*kind {
 			{"BridgerAddress", false, func(g *gen, c claim, ch string) { m := c.(*ct.MsgBridgeCallResultClaim); m.BridgerAddress = g.bech() }},
 		}}
 
-	ste := &kind{tag: "ste", name: "MsgSendToExternalClaim",
+	ste := &kind{tag: "ste", name: "MsgSendToExternalClaim", zero: func() claim { return &ct.MsgSendToExternalClaim{} },
 		base: func(g *gen, ch string) claim {
 			return &ct.MsgSendToExternalClaim{EventNonce: g.u64(), BlockHeight: g.u64(), BatchNonce: g.u64(), TokenContract: g.ext(ch),
 				BridgerAddress: g.bech(), ChainName: ch}
@@ -599,7 +600,7 @@ func kinds() []*kind {
 			{"BridgerAddress", false, func(g *gen, c claim, ch string) { m := c.(*ct.MsgSendToExternalClaim); m.BridgerAddress = g.bech() }},
 		}}
 
-	bt := &kind{tag: "bt", name: "MsgBridgeTokenClaim",
+	bt := &kind{tag: "bt", name: "MsgBridgeTokenClaim", zero: func() claim { return &ct.MsgBridgeTokenClaim{} },
 		base: func(g *gen, ch string) claim {
 			m := &ct.MsgBridgeTokenClaim{EventNonce: g.u64(), BlockHeight: g.u64(), TokenContract: g.ext(ch), Name: g.free(), Symbol: g.free(),
 				Decimals: uint64(g.rng.Intn(40)), BridgerAddress: g.bech(), ChannelIbc: g.hexText(), ChainName: ch}
@@ -650,7 +651,7 @@ func kinds() []*kind {
 			{"BridgerAddress", false, func(g *gen, c claim, ch string) { m := c.(*ct.MsgBridgeTokenClaim); m.BridgerAddress = g.bech() }},
 		}}
 
-	osu := &kind{tag: "osu", name: "MsgOracleSetUpdatedClaim",
+	osu := &kind{tag: "osu", name: "MsgOracleSetUpdatedClaim", zero: func() claim { return &ct.MsgOracleSetUpdatedClaim{} },
 		base: func(g *gen, ch string) claim {
 			n := 1 + g.rng.Intn(4)
 			if g.rng.Intn(10) == 0 {
@@ -793,6 +794,8 @@ type run struct {
 	nVariants int
 	facts     map[string]factClaim
 	found     []collision // colliding pairs found by the pure search, replayed on the real keeper
+	corpus    []loadedPair
+	nPure     int // violations recorded by the pure search
 }
 
 // collision: two ValidateBasic-valid claims of one type with different effect and the same real ClaimHash
@@ -810,12 +813,20 @@ func (r *run) emit(k *kind, c claim) (string, string, string) {
 	return h, v, line
 }
 
-// violate records a monitor violation, at most twice per description (the shared cap is 50 in total)
+// violate records a monitor violation, once per description; the pure search may use at most 24 of the 50 slots of the
+// shared record so that what the real keeper shows afterwards is always reported too
 func (r *run) violate(desc string, replay []string) {
 	r.nViol[desc]++
-	if r.nViol[desc] <= 2 {
-		r.out.ViolateWith(desc, replay)
+	if r.nViol[desc] > 1 {
+		return
 	}
+	if !strings.HasPrefix(desc, "real keeper") {
+		r.nPure++
+		if r.nPure > 24 {
+			return
+		}
+	}
+	r.out.ViolateWith(desc, replay)
 }
 
 func (r *run) record(k *kind, c claim, h, v, line string) {
@@ -940,9 +951,17 @@ func TestC03(t *testing.T) {
 		byTag[k.tag] = k
 	}
 	r.witnesses(byTag)
+	r.corpus = loadCorpus(byTag)
+	if len(r.corpus) > 0 {
+		out.Reset("corpus")
+		for _, p := range r.corpus {
+			out.Count("corpus:" + p.k.tag)
+			r.pair(p.k, p.what, p.a, p.b)
+		}
+	}
 	r.targets(g)
 
-	nBase := hx.N(60, 800) // base claims per type
+	nBase := hx.N(60, 450) // base claims per type
 	for _, k := range ks {
 		for i := 0; i < nBase; i++ {
 			out.Reset(k.tag)
